@@ -2181,7 +2181,11 @@ argument `default_label_format` (e.g. 'x{}').
                 yield default_label_format.format(varid)
                 varid += 1
             if isinstance(vg, SingletonVariableGroup):
-                yield vg.name
+                # a variable created without a label has the standard name
+                if vg.name is None:
+                    yield default_label_format.format(varid)
+                else:
+                    yield vg.name
                 varid += 1
                 continue
             yield from vg.label()
